@@ -21,7 +21,11 @@ Faithfulness notes (what the Go code does, and how it is modelled):
 * `outHandler`: receive from `sendQueue`; `writeMessage` (skipped without error when the flag is
   set; on a write error: `Disconnect()`, done signal, *no* sendDone); done signal; sendDone;
   on `quit`: wait for `queueQuit`, drain `sendQueue`, finish.
-* Timers (trickle, ping, stall) and the inventory path are outside this part of the model.
+* `stallHandler`: receives from `stallControl` (capacity 1) until it has observed `inQuit` and
+  `outQuit`; `outHandler` announces every message on `stallControl` before writing it. `inHandler`
+  is reduced to its exit (it returns once the disconnect made its read fail, closing `inQuit`); its
+  own `stallControl` sends happen before that exit, while the stall handler is necessarily alive.
+* Timers (trickle, ping, stall ticks) and the inventory path are outside this part of the model.
 -/
 namespace BV.C18.Pipe
 
@@ -30,7 +34,8 @@ inductive QPhase | main | drain | cleanup | done
 
 inductive OPhase
   | main
-  | holding (m : Nat)              -- received from sendQueue, before writeMessage
+  | holding (m : Nat)              -- received from sendQueue, before `stallControl <-`
+  | announced (m : Nat)            -- stall handler told, before writeMessage
   | wrote (m : Nat) (ok : Bool)    -- after writeMessage, before the done signal
   | owesDone                       -- after the done signal, before `sendDoneQueue <-`
   | waitQ                          -- saw quit, waiting for queueQuit
@@ -38,9 +43,19 @@ inductive OPhase
   | done
   deriving DecidableEq, Repr, Inhabited
 
+/-- `stallHandler`: which of the two quit channels it has observed so far. -/
+inductive SPhase
+  | running (seenIn seenOut : Bool)
+  | done
+  deriving DecidableEq, Repr, Inhabited
+
 structure Cfg where
   /-- capacity of `outputQueue` -/
   cap : Nat
+  /-- `true` = the stall handler as found in the tree before the repair of F-C18-a: the closed
+  `inQuit` (resp. `outQuit`) channel stays selectable after it was observed. `false` = repaired
+  (each quit channel is observed once). -/
+  stallBug : Bool
   /-- program order of the callers: `pred m = some p` when the same goroutine queues `p` right
   before `m` -/
   pred : Nat → Option Nat
@@ -57,6 +72,9 @@ structure Sys where
   sendQ : List Nat         -- sendQueue contents (capacity 1)
   sendDone : Nat           -- sendDoneQueue contents (capacity 1)
   oh : OPhase
+  stallCh : Nat            -- stallControl contents (capacity 1)
+  sh : SPhase              -- stallHandler
+  inDone : Bool            -- inHandler returned (inQuit closed)
   written : List Nat       -- messages put on the wire, in order
   done : List Nat          -- done signals delivered, in order
   sent : List Nat          -- ghost: order of sends into outputQueue
@@ -65,7 +83,8 @@ structure Sys where
 
 def init (ids : List Nat) : Sys :=
   { todo := ids, checked := [], outQ := [], disc := false, connLost := false, qh := .main,
-    waiting := false, pending := [], sendQ := [], sendDone := 0, oh := .main, written := [],
+    waiting := false, pending := [], sendQ := [], sendDone := 0, oh := .main, stallCh := 0,
+    sh := .running false false, inDone := false, written := [],
     done := [], sent := [], sentBefore := [] }
 
 inductive Choice
@@ -75,6 +94,8 @@ inductive Choice
   | loseConn            -- the connection breaks
   | qRecvOut | qRecvDone | qQuit | qStep
   | oRecv | oQuit | oStep
+  | iExit               -- inHandler returns (its read failed after the disconnect): closes inQuit
+  | sRecv | sInQuit | sOutQuit   -- stallHandler's select cases
   deriving DecidableEq, Repr, Inhabited
 
 def stepOpt (c : Cfg) (s : Sys) : Choice → Option Sys
@@ -126,7 +147,9 @@ def stepOpt (c : Cfg) (s : Sys) : Choice → Option Sys
   | .oQuit => if s.oh = .main ∧ s.disc then some { s with oh := .waitQ } else none
   | .oStep =>
     match s.oh with
-    | .holding m =>
+    | .holding m =>   -- `p.stallControl <- …` (blocks while the buffer is full)
+      if s.stallCh < 1 then some { s with oh := .announced m, stallCh := s.stallCh + 1 } else none
+    | .announced m =>
       if s.disc then some { s with oh := .wrote m true }                      -- write skipped
       else if s.connLost then some { s with oh := .wrote m false, disc := true } -- error: Disconnect
       else some { s with oh := .wrote m true, written := s.written ++ [m] }
@@ -139,6 +162,28 @@ def stepOpt (c : Cfg) (s : Sys) : Choice → Option Sys
       | m :: rest => some { s with sendQ := rest, done := s.done ++ [m] }
       | [] => some { s with oh := .done }
     | _ => none
+  | .iExit => if s.disc ∧ s.inDone = false then some { s with inDone := true } else none
+  | .sRecv =>
+    match s.sh with
+    | .running _ _ => if 0 < s.stallCh then some { s with stallCh := s.stallCh - 1 } else none
+    | .done => none
+  | .sInQuit =>
+    match s.sh with
+    | .running si so =>
+      if s.inDone ∧ (c.stallBug ∨ si = false) then
+        -- `if ioStopped { break out }; ioStopped = true`, then the exit drains stallControl
+        if si ∨ so then some { s with sh := .done, stallCh := 0 }
+        else some { s with sh := .running true so }
+      else none
+    | .done => none
+  | .sOutQuit =>
+    match s.sh with
+    | .running si so =>
+      if s.oh = .done ∧ (c.stallBug ∨ so = false) then
+        if si ∨ so then some { s with sh := .done, stallCh := 0 }
+        else some { s with sh := .running si true }
+      else none
+    | .done => none
 
 def step (c : Cfg) (s : Sys) (ch : Choice) : Sys := (stepOpt c s ch).getD s
 
@@ -146,18 +191,20 @@ def exec (c : Cfg) : Sys → List Choice → Sys
   | s, [] => s
   | s, ch :: rest => exec c (step c s ch) rest
 
-/-- Both handler goroutines have returned. -/
-def final (s : Sys) : Bool := s.qh = .done ∧ s.oh = .done
+/-- All handler goroutines (queue, out, in, stall) have returned. -/
+def final (s : Sys) : Bool := s.qh = .done ∧ s.oh = .done ∧ s.sh = .done ∧ s.inDone = true
 
 /-- Message the out handler holds whose done signal is still to come. -/
 def OPhase.held : OPhase → List Nat
   | .holding m => [m]
+  | .announced m => [m]
   | .wrote m _ => [m]
   | _ => []
 
 /-- Message received by the out handler but not yet passed to `writeMessage`. -/
 def OPhase.unwritten : OPhase → List Nat
   | .holding m => [m]
+  | .announced m => [m]
   | _ => []
 
 end BV.C18.Pipe
